@@ -431,7 +431,7 @@ def v_getattr(interp, v, name):
             real_axes = [a for a in v.axes if a is not ONE]
             if len(real_axes) > 1:
                 raise Undecided("flatten of a genuinely 2-D array")
-            return V(v.t, tuple(real_axes), None, v.nan, v.inf)
+            return V(v.t, tuple(real_axes), None, v.nan, v.inf, v.meta)
 
         return flatten
     if name == "reshape":
@@ -443,11 +443,11 @@ def v_getattr(interp, v, name):
             if shape == (-1, 1):
                 if len(real_axes) > 1:
                     raise Undecided("reshape(-1,1) of a 2-D array")
-                return V(v.t, tuple(real_axes) + (ONE,) if real_axes else (ONE, ONE), None, v.nan, v.inf)
+                return V(v.t, tuple(real_axes) + (ONE,) if real_axes else (ONE, ONE), None, v.nan, v.inf, v.meta)
             if shape == (-1,):
                 if len(real_axes) > 1:
                     raise Undecided("reshape(-1) of a 2-D array")
-                return V(v.t, tuple(real_axes), None, v.nan, v.inf)
+                return V(v.t, tuple(real_axes), None, v.nan, v.inf, v.meta)
             if shape == (1, -1):
                 if len(real_axes) > 1:
                     raise Undecided("reshape(1,-1) of a 2-D array")
@@ -508,6 +508,16 @@ def v_getattr(interp, v, name):
         return apply
     if name == "str":
         return StrAccessor(v)
+    if name == "clip":
+
+        def clip(min=None, max=None, lower=None, upper=None, **kw):
+            return np_clip(v, a_min=min if min is not None else lower, a_max=max if max is not None else upper)
+
+        return clip
+    if name == "std":
+        from . import sums as _s
+
+        return lambda axis=None, **k: _s.reduce_opaque(interp, v, axis, "std", nonneg=True)
     if name == "between":
 
         def between(left, right, inclusive="both"):
